@@ -89,9 +89,10 @@ struct Pay {
         a = v;
         b = v;
     }
-    Pay(Pay&& o): a(0), b(0)
+    // moves are noexcept and never throw (like every standard container); only COPIES are fault-injection points.
+    // A wrapper that derives a noexcept specification from the wrong trait then terminates when a copy throws.
+    Pay(Pay&& o) noexcept: a(0), b(0)
     {
-        user_call();
         long v = o.get();
         a = v;
         b = v;
@@ -102,9 +103,8 @@ struct Pay {
         set(o.get());
         return *this;
     }
-    Pay& operator=(Pay&& o)
+    Pay& operator=(Pay&& o) noexcept
     {
-        user_call();
         set(o.get());
         return *this;
     }
